@@ -295,6 +295,35 @@ theorem unmount_once (x : Sess) (h : x.refsOK) (hz : x.refs = 0) :
     rw [List.filter_eq_nil_iff] at this
     simpa using this p hp
 
+theorem find_put (x : Sess) (id : Nat) (h : Handle) : (x.put id h).find id = some h := by
+  simp [Sess.find, Sess.put]
+
+/-- `hold` (a detached owned buffer kept alive, e.g. across a `truncate`): the allocator state, the reference count and
+the drop counter are untouched, and the later drop of the handle releases nothing, drops no value and gives back exactly
+one reference -/
+theorem held_releases_nothing (x : Sess) (id : Nat) :
+    (x.hold id).st = x.st ∧ (x.hold id).refs = x.refs ∧ (x.hold id).dropCount = x.dropCount ∧
+    ∀ hd, x.find id = some hd → hd.kind = .bytes → hd.owned = true → hd.null = false →
+      ∃ x', (x.hold id).dropHandle id false = .ok x' ∧ x'.st = x.st ∧ x'.dropCount = x.dropCount ∧
+        x'.refs = x.refs - 1 := by
+  refine ⟨?_, ?_, ?_, ?_⟩
+  · unfold Sess.hold; split
+    · split <;> simp [Sess.put]
+    · rfl
+  · unfold Sess.hold; split
+    · split <;> simp [Sess.put]
+    · rfl
+  · unfold Sess.hold; split
+    · split <;> simp [Sess.put]
+    · rfl
+  · intro hd hf hk ho hn
+    have hh : x.hold id = x.put id { hd with kind := .obj, null := true } := by
+      unfold Sess.hold; rw [hf]; simp [hk, ho, hn]
+    rw [hh]
+    simp only [Sess.dropHandle, find_put, bind, Except.bind, pure, Except.pure, Handle.dropsValue,
+      Handle.dropDealloc, Handle.holdsArena, ho]
+    simp [Sess.decRef, Sess.erase, Sess.put]
+
 /-! non-vacuity -/
 def ex0 : Option Sess := Sess.init { sync := true, kind := .opt, unify := true, file := false, reserved := 0, cap := 256,
                                        minSeg := 8, retries := 5, magic := 0 }
